@@ -199,6 +199,16 @@ def matNorm (ord : Ord) (absRows : List (List α)) (absCols : List (List α)) : 
   | .int (-1) => lmin (absCols.map lsum)
   | _ => Option.none
 
+/-- `MatrixOperator.norm(ord)` (= `jnp.linalg.norm`) for the orders computed from the singular values `s` of the matrix
+    (`min(m,n)` of them; computing them — the SVD — is a contract): `2` → largest, `-2` → smallest, `'nuc'` → their sum.
+    `none` for the other orders (see `matNorm`). -/
+def svNorm (ord : Ord) (s : List α) : Option α :=
+  match ord with
+  | .int 2 => lmax s
+  | .int (-2) => lmin s
+  | .nuc => some (lsum s)
+  | _ => Option.none
+
 end norms
 
 end Scico.Estim
